@@ -81,6 +81,117 @@ def check_policy_table_freshness(ctx):
     ctx.count('policy_parser_per_iteration_tables', n_sites, 2)
 
 
+def check_decision_points(ctx, m, rule, fnames):
+    """The choke point / the lister hand out an object only on the allowed edge of the policy decision taken for that very object."""
+    decide = m.method('_is_allowed_by_operation_policy')
+    for fname in fnames:
+        fn = m.method(fname)
+        g = CFG(fn)
+        rd = ReachingDefs(g)
+        fs = m.site(fn, fn)
+        dcalls = [(n, c) for n, c in call_nodes(g, 'self._is_allowed_by_operation_policy')]
+        ctx.check(len(dcalls) == 1, rule, 'KmipEngine.%s|single-decision' % fname, fs, 'one policy decision call', 'expected exactly one _is_allowed_by_operation_policy call, found %d' % len(dcalls))
+        if len(dcalls) != 1:
+            continue
+        dn, dc = dcalls[0]
+        b = bind_args(decide, dc)
+        ap = dc._parent
+        dvar = ap.targets[0].id if isinstance(ap, ast.Assign) and isinstance(ap.targets[0], ast.Name) else None
+        # the object variable
+        objs = set()
+        want = {'policy_name': 'operation_policy_name', 'object_owner': '_owner', 'object_type': 'object_type'}
+        okargs = True
+        why = []
+        for pname, attr in want.items():
+            a = b.get(pname)
+            if isinstance(a, ast.Attribute) and isinstance(a.value, ast.Name) and a.attr in (attr, '_' + attr if not attr.startswith('_') else attr):
+                objs.add(a.value.id)
+            else:
+                okargs = False
+                why.append('%s <- %s' % (pname, U(a)))
+        if not is_self_attr(b.get('session_identity'), '_client_identity'):
+            okargs = False
+            why.append('session_identity <- %s' % U(b.get('session_identity')))
+        opp = params(fn)[-1]
+        if not (isinstance(b.get('operation'), ast.Name) and b['operation'].id == opp and len(rd.reaching(dn, opp)) == 1 and rd.reaching(dn, opp)[0][2] is None):
+            okargs = False
+            why.append('operation <- %s' % U(b.get('operation')))
+        if len(objs) != 1:
+            okargs = False
+            why.append('object-derived arguments come from %s' % sorted(objs))
+        ctx.check(okargs, rule, 'KmipEngine.%s|decision-arguments' % fname, m.site(dc, fn),
+                  'decision(policy name, client identity, owner, type, operation) of the object being handed out', 'decision arguments: %s' % why)
+        if not okargs:
+            continue
+        obj = next(iter(objs))
+        if fname == CHOKE:
+            uid = params(fn)[0]
+            rets = [n for n in g.nodes if n.kind == 'stmt' and isinstance(n.stmt, ast.Return)]
+            ctx.need(rets, 'anchor vanished: choke point return')
+            for r in rets:
+                v = r.stmt.value
+                okr = isinstance(v, ast.Name) and v.id == obj and dvar is not None
+                allowed_edge = None
+                if okr:
+                    okr = False
+                    for t, lab in dominating_edges(g, r):
+                        if isinstance(t.stmt, ast.Name) and t.stmt.id == dvar and lab == 'T' and [d[1] for d in rd.reaching(t, dvar)] == [dc]:
+                            okr = True
+                            allowed_edge = (t, lab)
+                        p = cmp_parts(t.stmt)
+                        if p and isinstance(p[0], ast.Name) and p[0].id == dvar and isinstance(p[2], ast.Constant) and p[2].value is True and \
+                                ((p[1] in ('Is', 'Eq') and lab == 'T') or (p[1] in ('IsNot', 'NotEq') and lab == 'F')):
+                            okr = True
+                            allowed_edge = (t, lab)
+                    okr = okr and [d[2] for d in rd.reaching(r, obj)] == [d[2] for d in rd.reaching(dn, obj)]
+                ctx.check(okr, rule, 'KmipEngine.%s|return-on-allowed-edge' % fname, m.site(r.stmt, fn),
+                          'object returned only on the allowed edge', 'the choke point can return an object without the policy decision being true')
+                if allowed_edge:
+                    t, lab = allowed_edge
+                    other = edge_successors(t, 'F' if lab == 'T' else 'T')
+                    rz = [n for n in g.nodes if n.kind == 'stmt' and isinstance(n.stmt, ast.Raise) and any(n.id in g.reachable(o) for o in other)]
+                    okd = bool(rz) and not any(g.exit.id in g.reachable(o) for o in other) and all(
+                        isinstance(x.stmt.exc, ast.Call) and call_name(x.stmt.exc) == 'exceptions.PermissionDenied' for x in rz)
+                    ctx.check(okd, rule, 'KmipEngine.%s|denied-edge-raises' % fname, m.site(t.stmt, fn), 'denied edge raises PermissionDenied',
+                              'the denied edge does not end in raise PermissionDenied')
+            # the object comes from a query filtered on the uid parameter
+            ov = rd.values(dn, obj)
+            okq = len(ov) == 1 and isinstance(ov[0], ast.Call) and isinstance(ov[0].func, ast.Attribute) and ov[0].func.attr == 'one'
+            if okq:
+                filt = [c for c in ast.walk(ov[0]) if isinstance(c, ast.Call) and isinstance(c.func, ast.Attribute) and c.func.attr == 'filter']
+                p = cmp_parts(filt[0].args[0]) if len(filt) == 1 and filt[0].args else None
+                okq = bool(p) and p[1] == 'Eq' and U(p[0]).endswith('.unique_identifier') and isinstance(p[2], ast.Name) and p[2].id == uid
+            ctx.check(okq, rule, 'KmipEngine.%s|object-is-the-requested-one' % fname, fs, 'object = query(type).filter(unique_identifier == uid).one()',
+                      'the object checked/returned is not the one selected by the requested identifier')
+        else:
+            apps = [(n, c) for n in g.nodes for c in calls_at(n) if isinstance(c.func, ast.Attribute) and c.func.attr in ('append', 'extend', 'insert', 'add')]
+            retv = [r.stmt.value.id for r in g.nodes if r.kind == 'stmt' and isinstance(r.stmt, ast.Return) and isinstance(r.stmt.value, ast.Name)]
+            ctx.check(len(retv) == 1, rule, 'KmipEngine.%s|single-return' % fname, fs, 'one returned list', 'unrecognised return shape')
+            good = bool(apps)
+            for n, c in apps:
+                tgt = c.func.value
+                if not (isinstance(tgt, ast.Name) and retv and tgt.id == retv[0]):
+                    continue
+                oke = c.func.attr == 'append' and isinstance(c.args[0], ast.Name) and c.args[0].id == obj
+                edge = False
+                for t, lab in dominating_edges(g, n):
+                    p = cmp_parts(t.stmt)
+                    if isinstance(t.stmt, ast.Name) and t.stmt.id == dvar and lab == 'T':
+                        edge = True
+                    if p and isinstance(p[0], ast.Name) and p[0].id == dvar and isinstance(p[2], ast.Constant) and p[2].value is True and \
+                            ((p[1] in ('Is', 'Eq') and lab == 'T') or (p[1] in ('IsNot', 'NotEq') and lab == 'F')):
+                        edge = True
+                same_iter = g.dominates(dn, n) and not any(l in ('loop', 'continue') for x in [dn] for mm, l in [])  # decision in the same iteration
+                if not (oke and edge and same_iter):
+                    good = False
+            # the returned list starts empty
+            rvals = rd.values(g.exit.pred[0][0], retv[0]) if retv else []
+            good = good and all(isinstance(v, ast.Call) and call_name(v) == 'list' and not v.args or isinstance(v, ast.List) and not v.elts for v in rvals)
+            ctx.check(good, rule, 'KmipEngine.%s|append-on-allowed-edge' % fname, fs, 'objects are appended only on the allowed edge, to an initially empty list',
+                      'the lister can include an object without a true policy decision for it')
+
+
+
 def run(ctx):
     src = ctx.src
     m = EngineModel(src)
@@ -204,112 +315,8 @@ def run(ctx):
                   'list filtered under Operation.%s' % (om[1] if om else '?'), 'objects are listed under %s, not the handler operation' % U(c.args[0] if c.args else None))
 
     # ---------------- R4 choke point and lister bodies
+    check_decision_points(ctx, m, 'C03.R4', (CHOKE, LISTER))
     decide = m.method('_is_allowed_by_operation_policy')
-    for fname in (CHOKE, LISTER):
-        fn = m.method(fname)
-        g = CFG(fn)
-        rd = ReachingDefs(g)
-        fs = m.site(fn, fn)
-        dcalls = [(n, c) for n, c in call_nodes(g, 'self._is_allowed_by_operation_policy')]
-        ctx.check(len(dcalls) == 1, 'C03.R4', 'KmipEngine.%s|single-decision' % fname, fs, 'one policy decision call', 'expected exactly one _is_allowed_by_operation_policy call, found %d' % len(dcalls))
-        if len(dcalls) != 1:
-            continue
-        dn, dc = dcalls[0]
-        b = bind_args(decide, dc)
-        ap = dc._parent
-        dvar = ap.targets[0].id if isinstance(ap, ast.Assign) and isinstance(ap.targets[0], ast.Name) else None
-        # the object variable
-        objs = set()
-        want = {'policy_name': 'operation_policy_name', 'object_owner': '_owner', 'object_type': 'object_type'}
-        okargs = True
-        why = []
-        for pname, attr in want.items():
-            a = b.get(pname)
-            if isinstance(a, ast.Attribute) and isinstance(a.value, ast.Name) and a.attr in (attr, '_' + attr if not attr.startswith('_') else attr):
-                objs.add(a.value.id)
-            else:
-                okargs = False
-                why.append('%s <- %s' % (pname, U(a)))
-        if not is_self_attr(b.get('session_identity'), '_client_identity'):
-            okargs = False
-            why.append('session_identity <- %s' % U(b.get('session_identity')))
-        opp = params(fn)[-1]
-        if not (isinstance(b.get('operation'), ast.Name) and b['operation'].id == opp and len(rd.reaching(dn, opp)) == 1 and rd.reaching(dn, opp)[0][2] is None):
-            okargs = False
-            why.append('operation <- %s' % U(b.get('operation')))
-        if len(objs) != 1:
-            okargs = False
-            why.append('object-derived arguments come from %s' % sorted(objs))
-        ctx.check(okargs, 'C03.R4', 'KmipEngine.%s|decision-arguments' % fname, m.site(dc, fn),
-                  'decision(policy name, client identity, owner, type, operation) of the object being handed out', 'decision arguments: %s' % why)
-        if not okargs:
-            continue
-        obj = next(iter(objs))
-        if fname == CHOKE:
-            uid = params(fn)[0]
-            rets = [n for n in g.nodes if n.kind == 'stmt' and isinstance(n.stmt, ast.Return)]
-            ctx.need(rets, 'anchor vanished: choke point return')
-            for r in rets:
-                v = r.stmt.value
-                okr = isinstance(v, ast.Name) and v.id == obj and dvar is not None
-                allowed_edge = None
-                if okr:
-                    okr = False
-                    for t, lab in dominating_edges(g, r):
-                        if isinstance(t.stmt, ast.Name) and t.stmt.id == dvar and lab == 'T' and [d[1] for d in rd.reaching(t, dvar)] == [dc]:
-                            okr = True
-                            allowed_edge = (t, lab)
-                        p = cmp_parts(t.stmt)
-                        if p and isinstance(p[0], ast.Name) and p[0].id == dvar and isinstance(p[2], ast.Constant) and p[2].value is True and \
-                                ((p[1] in ('Is', 'Eq') and lab == 'T') or (p[1] in ('IsNot', 'NotEq') and lab == 'F')):
-                            okr = True
-                            allowed_edge = (t, lab)
-                    okr = okr and [d[2] for d in rd.reaching(r, obj)] == [d[2] for d in rd.reaching(dn, obj)]
-                ctx.check(okr, 'C03.R4', 'KmipEngine.%s|return-on-allowed-edge' % fname, m.site(r.stmt, fn),
-                          'object returned only on the allowed edge', 'the choke point can return an object without the policy decision being true')
-                if allowed_edge:
-                    t, lab = allowed_edge
-                    other = edge_successors(t, 'F' if lab == 'T' else 'T')
-                    rz = [n for n in g.nodes if n.kind == 'stmt' and isinstance(n.stmt, ast.Raise) and any(n.id in g.reachable(o) for o in other)]
-                    okd = bool(rz) and not any(g.exit.id in g.reachable(o) for o in other) and all(
-                        isinstance(x.stmt.exc, ast.Call) and call_name(x.stmt.exc) == 'exceptions.PermissionDenied' for x in rz)
-                    ctx.check(okd, 'C03.R4', 'KmipEngine.%s|denied-edge-raises' % fname, m.site(t.stmt, fn), 'denied edge raises PermissionDenied',
-                              'the denied edge does not end in raise PermissionDenied')
-            # the object comes from a query filtered on the uid parameter
-            ov = rd.values(dn, obj)
-            okq = len(ov) == 1 and isinstance(ov[0], ast.Call) and isinstance(ov[0].func, ast.Attribute) and ov[0].func.attr == 'one'
-            if okq:
-                filt = [c for c in ast.walk(ov[0]) if isinstance(c, ast.Call) and isinstance(c.func, ast.Attribute) and c.func.attr == 'filter']
-                p = cmp_parts(filt[0].args[0]) if len(filt) == 1 and filt[0].args else None
-                okq = bool(p) and p[1] == 'Eq' and U(p[0]).endswith('.unique_identifier') and isinstance(p[2], ast.Name) and p[2].id == uid
-            ctx.check(okq, 'C03.R4', 'KmipEngine.%s|object-is-the-requested-one' % fname, fs, 'object = query(type).filter(unique_identifier == uid).one()',
-                      'the object checked/returned is not the one selected by the requested identifier')
-        else:
-            apps = [(n, c) for n in g.nodes for c in calls_at(n) if isinstance(c.func, ast.Attribute) and c.func.attr in ('append', 'extend', 'insert', 'add')]
-            retv = [r.stmt.value.id for r in g.nodes if r.kind == 'stmt' and isinstance(r.stmt, ast.Return) and isinstance(r.stmt.value, ast.Name)]
-            ctx.check(len(retv) == 1, 'C03.R4', 'KmipEngine.%s|single-return' % fname, fs, 'one returned list', 'unrecognised return shape')
-            good = bool(apps)
-            for n, c in apps:
-                tgt = c.func.value
-                if not (isinstance(tgt, ast.Name) and retv and tgt.id == retv[0]):
-                    continue
-                oke = c.func.attr == 'append' and isinstance(c.args[0], ast.Name) and c.args[0].id == obj
-                edge = False
-                for t, lab in dominating_edges(g, n):
-                    p = cmp_parts(t.stmt)
-                    if isinstance(t.stmt, ast.Name) and t.stmt.id == dvar and lab == 'T':
-                        edge = True
-                    if p and isinstance(p[0], ast.Name) and p[0].id == dvar and isinstance(p[2], ast.Constant) and p[2].value is True and \
-                            ((p[1] in ('Is', 'Eq') and lab == 'T') or (p[1] in ('IsNot', 'NotEq') and lab == 'F')):
-                        edge = True
-                same_iter = g.dominates(dn, n) and not any(l in ('loop', 'continue') for x in [dn] for mm, l in [])  # decision in the same iteration
-                if not (oke and edge and same_iter):
-                    good = False
-            # the returned list starts empty
-            rvals = rd.values(g.exit.pred[0][0], retv[0]) if retv else []
-            good = good and all(isinstance(v, ast.Call) and call_name(v) == 'list' and not v.args or isinstance(v, ast.List) and not v.elts for v in rvals)
-            ctx.check(good, 'C03.R4', 'KmipEngine.%s|append-on-allowed-edge' % fname, fs, 'objects are appended only on the allowed edge, to an initially empty list',
-                      'the lister can include an object without a true policy decision for it')
 
     # ---------------- R5 decision trees
     ia = m.method('is_allowed')
